@@ -1636,6 +1636,7 @@ def read_start(fn):
     _, flag, hook = [a.arg for a in fn.args.args]
     stmts = [s for s in body_of(fn) if not (isinstance(s, ast.Expr) and isinstance(s.value, ast.Call) and ast.unparse(s.value.func).startswith('logger.'))]
     t0 = t1 = hist = dt = None
+    alias_ = {}
     for st in stmts:
         u = ' '.join(ast.unparse(st).split())
         tgt = st.targets[0].id if isinstance(st, ast.Assign) and len(st.targets) == 1 and isinstance(st.targets[0], ast.Name) else None
@@ -1643,9 +1644,12 @@ def read_start(fn):
         if tgt and ast.unparse(v) == 'time.time()' and t0 is None and hist is None:
             t0 = tgt
             F['clockBefore'] = True
-        elif tgt and isinstance(v, ast.Call) and ast.unparse(v.func) == 'self.optimizer.run' and hist is None and t0:
+        elif tgt and isinstance(v, ast.Call) and ast.unparse(v.func) in (['self.optimizer.run'] + ([alias_['opt'] + '.run'] if 'opt' in alias_ else [])) \
+                and hist is None and t0:
             hist = tgt
             a = [ast.unparse(x) for x in v.args]
+            if len(v.args) == 1 and isinstance(v.args[0], ast.Starred) and 'args' in alias_ and ast.unparse(v.args[0].value) == alias_['args'][0]:
+                a = list(alias_['args'][1])          # `run(*args)` with `args` the tuple bound just before
             kw = {k.arg: ast.unparse(k.value) for k in v.keywords}
             F['runsWithOwnComponents'] = a[:2] == ['self.space', 'self.function']
             rest = a[2:] + [kw.get('store_best_only'), kw.get('pre_evaluation_hook')][len(a[2:]):]
@@ -1655,6 +1659,15 @@ def read_start(fn):
             F['clockAfter'] = True
         elif tgt and t0 and t1 and ast.unparse(v) == f'{t1} - {t0}' and dt is None:
             dt = tgt
+        elif tgt and t0 and hist and t1 is None and dt is None and ast.unparse(v) == f'time.time() - {t0}':
+            # the second clock reading taken inside the subtraction: the same reading at the same point
+            t1 = '<inline>'
+            dt = tgt
+            F['clockAfter'] = True
+        elif tgt and hist is None and ast.unparse(v) == 'self.optimizer' and 'opt' not in alias_:
+            alias_['opt'] = tgt
+        elif tgt and hist is None and isinstance(v, ast.Tuple) and 'args' not in alias_:
+            alias_['args'] = (tgt, [ast.unparse(x) for x in v.elts])
         elif hist and isinstance(st, ast.Expr) and u in ([f'{hist}.dump(time={dt})'] if dt else []) + ([f'{hist}.dump(time={t1} - {t0})'] if t1 else []):
             F['dumpsElapsed'] = True
         elif hist and t0 and isinstance(st, ast.Expr) and u == f'{hist}.dump(time=time.time() - {t0})' and t1 is None:
